@@ -772,7 +772,10 @@ struct elements_iterator_t : boost::multi::random_accessable<elements_iterator_t
 	template<typename, class> friend struct elements_range_t;
 
 	constexpr elements_iterator_t(pointer base, layout_type const& lyt, difference_type n)
-	: base_{base}, l_{lyt}, n_{n}, xs_{l_.extensions()}, ns_{lyt.is_empty()?indices_type{}:xs_.from_linear(n)} {}
+	: base_{base}, l_{lyt}, n_{n}, xs_{l_.extensions()}, ns_{indices_at_(n)} {}
+
+	// a range with a zero extent in some dimension has no positions: from_linear would divide by the (zero) number of elements of its sub-extents
+	constexpr auto indices_at_(difference_type n) const -> indices_type { return (xs_.num_elements() == 0) ? indices_type{} : xs_.from_linear(n); }
 
  public:
 	elements_iterator_t() = default;
@@ -812,12 +815,12 @@ struct elements_iterator_t : boost::multi::random_accessable<elements_iterator_t
 	}
 
 	BOOST_MULTI_HD constexpr auto operator+=(difference_type n) -> elements_iterator_t& {
-		ns_ = xs_.from_linear(n_ + n);
+		ns_ = indices_at_(n_ + n);
 		n_ += n;
 		return *this;
 	}
 	BOOST_MULTI_HD constexpr auto operator-=(difference_type n) -> elements_iterator_t& {
-		ns_ = xs_.from_linear(n_ - n);
+		ns_ = indices_at_(n_ - n);
 		n_ -= n;
 		return *this;
 	}
@@ -845,7 +848,7 @@ struct elements_iterator_t : boost::multi::random_accessable<elements_iterator_t
 	BOOST_MULTI_HD constexpr auto operator->() const -> pointer   {return base_ + std::apply(l_, ns_) ;}
 	BOOST_MULTI_HD constexpr auto operator*()  const -> reference {return base_  [std::apply(l_, ns_)];}
 	BOOST_MULTI_HD constexpr auto operator[](difference_type const& n) const -> reference {
-		return base_[std::apply(l_, xs_.from_linear(n_ + n))];
+		return base_[std::apply(l_, indices_at_(n_ + n))];
 	}  // explicit here is necessary for nvcc/thrust
 
 	#if defined(__clang__)
